@@ -69,7 +69,9 @@ func disassemble(b *bytecode, buf *bytes.Buffer) {
 			off := i - 1
 			sz, w := b.readMediumInt(i)
 			i += w
-			fmt.Fprintf(buf, "[%d] %s %d\n", off, op, sz)
+			name, w := b.readConst(i)
+			i += w
+			fmt.Fprintf(buf, "[%d] %s %d %v\n", off, op, sz, name)
 
 		case OP_CALL_BY_VALUE:
 			fallthrough
